@@ -74,7 +74,9 @@ def filters_via_string(arr):
     _libc.free(sp)
     out = (lz.Filter * 5)()
     epos = C.c_int(0)
-    msg = L.lzma_str_to_filters(text, C.byref(epos), out, 0, None)
+    tbuf = C.create_string_buffer(text)
+    L.lzma_str_to_filters.argtypes = [C.c_void_p] + list(L.lzma_str_to_filters.argtypes[1:])
+    msg = L.lzma_str_to_filters(C.addressof(tbuf), C.byref(epos), out, 0, None)
     if msg is not None:
         raise RuntimeError("lzma_str_to_filters(%r) -> %r at %d" % (text, msg, epos.value))
     out._text = text.decode()
@@ -236,6 +238,7 @@ def drive(entry, m, bufs, ins, outs, irep=0, orep=0, rec=None, tail=0):
     sref = C.byref(s)
     ret = lz.OK
     terminal = False
+    final = None         # (ret, total_in, op) at the terminal call; the starving tail calls come after it
     extra = 0
     notes = []           # informational return codes (LZMA_NO_CHECK / UNSUPPORTED_CHECK / GET_CHECK) and where they came
     while True:
@@ -298,8 +301,9 @@ def drive(entry, m, bufs, ins, outs, irep=0, orep=0, rec=None, tail=0):
             notes.append("%s@%d" % (lz.retname(ret), s.total_in))
             continue
         if ret == lz.BUF_ERROR:
-            if fed == n and g == cap - op and g > 0:
+            if fed == n and g > 0:
                 terminal = True        # everything offered, room left, still no progress
+                final = (ret, s.total_in, op)
             elif calls > limit:
                 problems.append("hang")
                 break
@@ -308,7 +312,10 @@ def drive(entry, m, bufs, ins, outs, irep=0, orep=0, rec=None, tail=0):
             ip = fed = min(n, s.seek_pos)
             continue
         terminal = True
-    return dict(ret=ret, op=op, tin=s.total_in, calls=calls, problems=problems, notes=notes)
+        final = (ret, s.total_in, op)
+    if final is None:
+        final = (ret, s.total_in, op)
+    return dict(ret=final[0], op=final[2], tin=final[1], calls=calls, problems=problems, notes=notes)
 
 
 def observe(m, bufs, r):
@@ -369,6 +376,19 @@ def run_subject(sub, budget):
     exempt = bool(sub.get("exempt"))
     use_alloc = bool(sub.get("alloc"))
     res = dict(id=sub["id"], entry=entry, cls=sub["cls"], runs=0, calls=0, mism=[], traces=[], problems=[], one=None)
+    if args.get("memlimit") in ("exact", "exact-1"):
+        # memory limit = what the decoder reports to need for this input (probe run with no limit), or one byte less
+        pa = dict(args); pa["memlimit"] = lz.UINT64_MAX
+        pm = make(entry, pa, data)
+        need = 0
+        if pm.ret == lz.OK:
+            pb = Bufs(pm.data, sub.get("cap") or 65536)
+            drive(entry, pm, pb, [], [], 0, 0)
+            need = lz.L().lzma_memusage(C.byref(pm.c.strm))
+        unmake(pm)
+        args = dict(args)
+        args["memlimit"] = max(1, need - (1 if sub["args"]["memlimit"] == "exact-1" else 0))
+        res["memlimit"] = args["memlimit"]
 
     def one_run(plan, rec=None, tail=0, cap=None, one=None):
         alloc = lz.CountingAllocator() if use_alloc else None
@@ -494,7 +514,7 @@ def run_parse(p):
             alloc._free(None, f.options) if alloc is not None else _libc.free(f.options)
         rn = lz.retname(ret)
     elif e == "properties_decode":
-        f = lz.Filter(); f.id = int(p["id"]); f.options = None
+        f = lz.Filter(); f.id = int(p["filter_id"]); f.options = None
         ret = L.lzma_properties_decode(C.byref(f), ap, buf.addr, len(raw))
         if f.options:
             if ret != lz.OK:
@@ -542,7 +562,7 @@ def run_parse(p):
         epos = C.c_int(-7)
         text = raw + b"\0"
         tb = lz.Buf(len(text), text)
-        L.lzma_str_to_filters.argtypes[0] = C.c_void_p
+        L.lzma_str_to_filters.argtypes = [C.c_void_p] + list(L.lzma_str_to_filters.argtypes[1:])
         msg = L.lzma_str_to_filters(tb.addr, C.byref(epos), out, p.get("flags", 0), ap)
         rn = "OK" if msg is None else "MSG"
         extra = dict(epos=epos.value, msg=(msg or b"").decode("latin1"))
